@@ -581,6 +581,10 @@ class FX:
             if isinstance(n, ast.Compare) and len(n.ops) == 1:
                 a, b = ev(n.left), ev(n.comparators[0])
                 op = n.ops[0]
+                if a is not None and isinstance(op, (ast.In, ast.NotIn)) and isinstance(n.comparators[0], (ast.List, ast.Tuple, ast.Set)) \
+                        and all(isinstance(x, ast.Constant) for x in n.comparators[0].elts):
+                    res = a[1] in [x.value for x in n.comparators[0].elts]
+                    return ("v", res if isinstance(op, ast.In) else not res)
                 if a is not None and b is not None:
                     try:
                         if isinstance(op, (ast.Is, ast.Eq)):
